@@ -50,19 +50,21 @@ fn emit(out: &mut Vec<Value>, est: &str, ty: &str, res: &str, a: &[u64], b: &[u6
 }
 
 macro_rules! generic_estimators {
-    ($out:expr, $ty:expr, $a:expr, $b:expr, $conv:expr, $t:ty) => {{
-        let va: Vec<$t> = $a.iter().map(|k| $conv(*k)).collect();
-        let vb: Vec<$t> = $b.iter().map(|k| $conv(*k)).collect();
-        let r = catch_unwind(AssertUnwindSafe(|| Ok::<f64, ()>(jaccard::compute_probminhash_jaccard(&va, &vb))));
+    ($out:expr, $ty:expr, $a:expr, $b:expr, $conv:expr, $t:ty, $alias:expr) => {{
+        let va0: Vec<$t> = $a.iter().map(|k| $conv(*k)).collect();
+        let vb0: Vec<$t> = $b.iter().map(|k| $conv(*k)).collect();
+        // aliasing: the first sketch is a prefix slice of the second one's storage (same start address, other length)
+        let (va, vb): (&[$t], &[$t]) = if $alias { (&vb0[..va0.len()], &vb0[..]) } else { (&va0[..], &vb0[..]) };
+        let r = catch_unwind(AssertUnwindSafe(|| Ok::<f64, ()>(jaccard::compute_probminhash_jaccard(va, vb))));
         let (oc, v) = outcome3(r);
         emit($out, "jaccard_compute_probminhash_jaccard", $ty, "f64", $a, $b, oc, v.map(|x| x.to_bits()));
-        let r = catch_unwind(AssertUnwindSafe(|| jaccard::get_jaccard_index_estimate(&va, &vb).map_err(|_| ())));
+        let r = catch_unwind(AssertUnwindSafe(|| jaccard::get_jaccard_index_estimate(va, vb).map_err(|_| ())));
         let (oc, v) = outcome3(r);
         emit($out, "jaccard_get_jaccard_index_estimate", $ty, "f64", $a, $b, oc, v.map(|x| x.to_bits()));
-        let r = catch_unwind(AssertUnwindSafe(|| superminhasher2::compute_superminhash_jaccard(&va, &vb)));
+        let r = catch_unwind(AssertUnwindSafe(|| superminhasher2::compute_superminhash_jaccard(&va0, &vb0)));
         let (oc, v) = outcome3(r);
         emit($out, "smh2_compute_superminhash_jaccard", $ty, "f32", $a, $b, oc, v.map(|x| x.to_bits() as u64));
-        let r = catch_unwind(AssertUnwindSafe(|| superminhasher2::get_jaccard_index_estimate(&va, &vb)));
+        let r = catch_unwind(AssertUnwindSafe(|| superminhasher2::get_jaccard_index_estimate(&va0, &vb0)));
         let (oc, v) = outcome3(r);
         emit($out, "smh2_get_jaccard_index_estimate", $ty, "f32", $a, $b, oc, v.map(|x| x.to_bits() as u64));
     }};
@@ -78,12 +80,14 @@ pub fn cases(args: &[String]) {
         crate::util::tick_idx(round as u64, serde_json::Value::Null);
         let (la, lb) = pair_lens(&mut rng);
         let alphabet = [2u64, 5, 1000, u16::MAX as u64][rng.below(4) as usize];
-        let (a, b) = gen_keys(&mut rng, la, lb, alphabet);
+        let (mut a, b) = gen_keys(&mut rng, la, lb, alphabet);
+        let alias = la < lb && rng.coin(0.5);
+        if alias { a = b[..la].to_vec(); }
         match round % 6 {
-            0 => generic_estimators!(&mut out, "u16", &a, &b, |k: u64| k as u16, u16),
-            1 => generic_estimators!(&mut out, "u32", &a, &b, |k: u64| k as u32, u32),
-            2 => generic_estimators!(&mut out, "u64", &a, &b, |k: u64| k, u64),
-            3 => generic_estimators!(&mut out, "usize", &a, &b, |k: u64| k as usize, usize),
+            0 => generic_estimators!(&mut out, "u16", &a, &b, |k: u64| k as u16, u16, alias),
+            1 => generic_estimators!(&mut out, "u32", &a, &b, |k: u64| k as u32, u32, alias),
+            2 => generic_estimators!(&mut out, "u64", &a, &b, |k: u64| k, u64, alias),
+            3 => generic_estimators!(&mut out, "usize", &a, &b, |k: u64| k as usize, usize, alias),
             4 => {
                 // f64 sketches: keys are bit patterns of non-negative finite doubles
                 // in a third of the rounds: values below 2 where equal positions are turned into neighbouring doubles
@@ -93,13 +97,14 @@ pub fn cases(args: &[String]) {
                 let ka: Vec<u64> = a.iter().map(|k| (*k as f64 * sc).to_bits()).collect();
                 let mut kb: Vec<u64> = b.iter().map(|k| (*k as f64 * sc).to_bits()).collect();
                 if near { for i in 0..kb.len().min(ka.len()) { if ka[i] == kb[i] && rng.coin(0.5) { kb[i] = ka[i] + 1; } } }
-                generic_estimators!(&mut out, "f64", &ka, &kb, |k: u64| f64::from_bits(k), f64);
-                let va: Vec<f64> = ka.iter().map(|k| f64::from_bits(*k)).collect();
+                generic_estimators!(&mut out, "f64", &ka, &kb, |k: u64| f64::from_bits(k), f64, alias);
+                let va0: Vec<f64> = ka.iter().map(|k| f64::from_bits(*k)).collect();
                 let vb: Vec<f64> = kb.iter().map(|k| f64::from_bits(*k)).collect();
-                let r = catch_unwind(AssertUnwindSafe(|| superminhasher::compute_superminhash_jaccard(&va, &vb).map_err(|_| ())));
+                let va: &[f64] = if alias && ka[..] == kb[..ka.len()] { &vb[..va0.len()] } else { &va0[..] };
+                let r = catch_unwind(AssertUnwindSafe(|| superminhasher::compute_superminhash_jaccard(va, &vb).map_err(|_| ())));
                 let (oc, v) = outcome3(r);
                 emit(&mut out, "smh_compute_superminhash_jaccard", "f64", "f64", &ka, &kb, oc, v.map(|x| x.to_bits()));
-                let r = catch_unwind(AssertUnwindSafe(|| superminhasher::get_jaccard_index_estimate(&va, &vb).map_err(|_| ())));
+                let r = catch_unwind(AssertUnwindSafe(|| superminhasher::get_jaccard_index_estimate(va, &vb).map_err(|_| ())));
                 let (oc, v) = outcome3(r);
                 emit(&mut out, "smh_get_jaccard_index_estimate", "f64", "f64", &ka, &kb, oc, v.map(|x| x.to_bits()));
             }
@@ -109,13 +114,14 @@ pub fn cases(args: &[String]) {
                 let ka: Vec<u64> = a.iter().map(|k| (*k as f32 * sc).to_bits() as u64).collect();
                 let mut kb: Vec<u64> = b.iter().map(|k| (*k as f32 * sc).to_bits() as u64).collect();
                 if near { for i in 0..kb.len().min(ka.len()) { if ka[i] == kb[i] && rng.coin(0.5) { kb[i] = ka[i] + 1; } } }
-                generic_estimators!(&mut out, "f32", &ka, &kb, |k: u64| f32::from_bits(k as u32), f32);
-                let va: Vec<f32> = ka.iter().map(|k| f32::from_bits(*k as u32)).collect();
+                generic_estimators!(&mut out, "f32", &ka, &kb, |k: u64| f32::from_bits(k as u32), f32, alias);
+                let va0: Vec<f32> = ka.iter().map(|k| f32::from_bits(*k as u32)).collect();
                 let vb: Vec<f32> = kb.iter().map(|k| f32::from_bits(*k as u32)).collect();
-                let r = catch_unwind(AssertUnwindSafe(|| superminhasher::compute_superminhash_jaccard(&va, &vb).map_err(|_| ())));
+                let va: &[f32] = if alias && ka[..] == kb[..ka.len()] { &vb[..va0.len()] } else { &va0[..] };
+                let r = catch_unwind(AssertUnwindSafe(|| superminhasher::compute_superminhash_jaccard(va, &vb).map_err(|_| ())));
                 let (oc, v) = outcome3(r);
                 emit(&mut out, "smh_compute_superminhash_jaccard", "f32", "f32", &ka, &kb, oc, v.map(|x| x.to_bits() as u64));
-                let r = catch_unwind(AssertUnwindSafe(|| superminhasher::get_jaccard_index_estimate(&va, &vb).map_err(|_| ())));
+                let r = catch_unwind(AssertUnwindSafe(|| superminhasher::get_jaccard_index_estimate(va, &vb).map_err(|_| ())));
                 let (oc, v) = outcome3(r);
                 emit(&mut out, "smh_get_jaccard_index_estimate", "f32", "f32", &ka, &kb, oc, v.map(|x| x.to_bits() as u64));
             }
